@@ -106,7 +106,8 @@ func Unnest(a Set, attr string) (Set, error) {
 	if !key.Has(attr) {
 		return nil, fmt.Errorf("unnest attr %q not found in relation (%v)", attr, key)
 	}
-	return Reduce(
+	var unnestErr error
+	result := Reduce(
 		a,
 		func(value Value) Value {
 			return value.(Tuple).Project(key)
@@ -116,12 +117,31 @@ func Unnest(a Set, attr string) (Set, error) {
 			t := key.(Tuple)
 			s, _ := t.Get(attr)
 			t = t.Without(attr)
-			for e := s.(Set).Enumerator(); e.MoveNext(); {
-				unnested = unnested.With(Merge(t, e.Current().(Tuple)))
+			nested, is := s.(Set)
+			if !is {
+				unnestErr = fmt.Errorf("unnest attr %q must hold a relation, not %s", attr, ValueTypeAsString(s))
+				return None
+			}
+			for e := nested.Enumerator(); e.MoveNext(); {
+				u, is := e.Current().(Tuple)
+				if !is {
+					unnestErr = fmt.Errorf("unnest attr %q must hold a relation, not %s", attr, ValueTypeAsString(nested))
+					return None
+				}
+				merged := Merge(t, u)
+				if merged == nil {
+					unnestErr = fmt.Errorf("unnest attr %q: nested attributes clash with outer attributes", attr)
+					return None
+				}
+				unnested = unnested.With(merged)
 			}
 			return unnested
 		},
-	), nil
+	)
+	if unnestErr != nil {
+		return nil, unnestErr
+	}
+	return result, nil
 }
 
 // Reduce reduces a set using the given key and reducer functions.
